@@ -229,10 +229,6 @@ Qed.
 Lemma rdm_buf_wr_same : forall st off d, rdm_stale (rdm_buf_wr st off d) = rdm_stale st /\ rdm_tr (rdm_buf_wr st off d) = rdm_tr st.
 Proof. intros st off d. unfold rdm_buf_wr. destruct (JLS_BUF_DEFAULT_SIZE <? off + rp_len d); split; reflexivity. Qed.
 
-(* the annotation a DATA payload p decodes to, for a signal whose first sample id is sid0 *)
-Definition rdm_anno_of_payload (sid0 : Z) (p : list N) : rdm_anno :=
-  let fx := fm_sub OFFSETOF_annotation_type (rdm_anno_data_off - OFFSETOF_annotation_type) p in
-  rdm_anno_of (rdm_wrap (fm_i64_of_u64 (fm_dec (fm_sub 0 8 p)) - sid0)) fx (fm_sub rdm_anno_data_off (rdm_anno_size fx) p).
 Definition rdm_anno_from (sid0 : Z) (tr : list rdm_ev) (it : rdm_anno) : Prop :=
   exists e, In e tr /\ fm_tag (rdm_ev_hdr e) = JLS_TAG_TRACK_ANNOTATION_DATA /\
             it = rdm_anno_of_payload sid0 (rdm_ev_pay e) /\
@@ -548,13 +544,6 @@ Proof.
 Qed.
 
 (* ------------------------------------------------------------------ jls_rd_utc *)
-(* what one chunk contributes: a UTC DATA chunk gives one entry, a UTC SUMMARY chunk gives its entries from the first
-   one whose sample id is not below t on *)
-Definition rdm_utc_data_of (sid0 : Z) (p : list N) : Z * Z :=
-  (rdm_wrap (fm_i64_of_u64 (fm_dec (fm_sub 0 8 p)) - sid0), fm_i64_of_u64 (fm_dec (fm_sub SIZEOF_payload_header 8 p))).
-Definition rdm_utc_summary_of (sid0 t : Z) (p : list N) : list (Z * Z) :=
-  let ec := fm_dec (fm_sub OFFSETOF_payload_entry_count 4 p) in
-  fst (rdm_utc_shift sid0 (rdm_utc_skip t (rdm_dec_utc (N.to_nat ec) (fm_sub SIZEOF_payload_header (SIZEOF_utc_summary_entry * ec) p)))).
 Definition rdm_utc_from (sid0 t : Z) (tr : list rdm_ev) (batch : list (Z * Z)) : Prop :=
   exists e, In e tr /\
     (batch = [rdm_utc_data_of sid0 (rdm_ev_pay e)] \/
